@@ -12,10 +12,11 @@ import (
 // ------------------------------------------------------------------ generators
 
 type universe struct {
-	defs    []*SymDef
-	nIds    int  // ids 1..nIds exist in the universe; nIds+1 is never inserted (dangling)
-	chain   bool // chain universe: deterministic activation order, failing responders allowed
-	hasFail bool
+	defs     []*SymDef
+	nIds     int  // ids 1..nIds exist in the universe; nIds+1 is never inserted (dangling)
+	chain    bool // chain universe: deterministic activation order, failing responders allowed
+	hasFail  bool
+	refusals []string // `mode refuse …` lines
 	// reuse: the case re-inserts the same *Symbol objects (a node closed by an earlier removal is
 	// inserted again); no lifecycle ports, because a closed node no longer answers packets
 	reuse bool
@@ -98,7 +99,11 @@ func genGeneral(r *lib.RNG, c *lib.Ctx, flavour int, reuse bool) *universe {
 func genChain(r *lib.RNG, c *lib.Ctx) *universe {
 	m := r.Range(2, 4)
 	nResp := r.Range(1, 2)
-	u := &universe{nIds: m + nResp, chain: true}
+	u := &universe{nIds: m + nResp, chain: true, reuse: r.Chance(3, 10)}
+	if u.reuse {
+		c.Hit("universe-chain-reused-objects")
+		u.hasFail = true // a node closed by an earlier removal answers lifecycle flows with a dropped packet
+	}
 	names := make([]int, u.nIds+1)
 	for k := 1; k <= u.nIds; k++ {
 		if r.Chance(1, 2) {
@@ -156,6 +161,32 @@ func genChain(r *lib.RNG, c *lib.Ctx) *universe {
 			u.defs = append(u.defs, &SymDef{ID: k, Name: names[k], Kind: kOneToOne, Resp: k})
 			u.hasFail = true
 		}
+		if r.Chance(1, 3) {
+			// a responder that answers every request with packet.ErrDroppedPacket
+			u.defs = append(u.defs, &SymDef{ID: k, Name: names[k], Kind: kOneToOne, Resp: respDropped})
+			u.hasFail = true
+			c.Hit("responder-answers-dropped-packet")
+		}
+	}
+	// refusing hooks: a load / unload hook that runs before / after the observing hooks refuses a
+	// symbol, once or always
+	if r.Chance(5, 10) {
+		nr := r.Range(1, 2)
+		seen := map[string]bool{}
+		for i := 0; i < nr; i++ {
+			un, af, sym, once := r.Intn(2), r.Intn(2), r.Range(1, u.nIds), r.Intn(2)
+			if r.Chance(1, 2) {
+				un, af = 1, 0 // an unload hook that runs before the observers: the one C07 can judge
+			}
+			key := fmt.Sprintf("%d %d %d", un, af, sym)
+			if seen[key] {
+				continue
+			}
+			seen[key] = true
+			u.refusals = append(u.refusals, fmt.Sprintf("mode refuse %d %d %d %d %d", un, af, sym, once, 40+i))
+			c.Hit(fmt.Sprintf("refusing-hook-unload%d-after%d", un, af))
+		}
+		u.hasFail = true
 	}
 	return u
 }
@@ -176,13 +207,14 @@ func nameFree(cur map[int]*live, d *SymDef) bool {
 // ------------------------------------------------------------------ one case
 
 type caseResult struct {
-	lines   []string
-	outs    []string
-	fails   []lib.OracleFail
-	hadErr  bool
-	maxLink int
-	sawU    bool
-	blocked bool
+	lines     []string
+	outs      []string
+	fails     []lib.OracleFail
+	hadErr    bool
+	hadErrC07 bool
+	maxLink   int
+	sawU      bool
+	blocked   bool
 }
 
 func replayOf(lines, outs []string) string {
@@ -241,9 +273,23 @@ func (rn *runner) do(line string) {
 		rn.c.Hit("observation-point")
 		return
 	}
+	line = w.effective(line)
 	rn.lastOp = line
 	before := copyCur(w.cur)
 	balBefore := w.balances()
+	firedBefore := map[string]bool{}
+	for _, r := range w.refusals {
+		if r.fired {
+			u, a := 0, 0
+			if r.unload {
+				u = 1
+			}
+			if r.after {
+				a = 1
+			}
+			firedBefore[fmt.Sprintf("X%d%d:%d", u, a, r.sym)] = true
+		}
+	}
 	ret, evs, blocked := w.apply(line)
 	if blocked {
 		rn.res.blocked = true
@@ -285,6 +331,28 @@ func (rn *runner) do(line string) {
 	rn.res.outs = append(rn.res.outs, obs)
 	if strings.HasPrefix(ret, "err") || strings.HasPrefix(ret, "PANIC") {
 		rn.res.hadErr = true
+		// C07 ("loaded without a matching unload" = "closure present", alternation) is about histories
+		// without failures, with one exception that leaves everything as it was: the operation was
+		// refused by an unload hook that runs BEFORE every observing hook, for the first symbol its
+		// unload pass reached (nothing was notified before the refusal). Every other failure (a flow,
+		// a load hook, an unload hook that runs after the observers, a refusal after other symbols of
+		// the pass were unloaded) may leave a present symbol with a complete closure un-notified on
+		// the unchanged code and is outside the property's quantifier.
+		inEnvelope := false
+		for _, e := range evs {
+			if e.k == 'L' || e.k == 'U' || e.k == 'l' || e.k == 'u' {
+				break
+			}
+			if e.k == 'X' {
+				inEnvelope = e.tgt == 2
+				break
+			}
+		}
+		if !inEnvelope || strings.HasPrefix(ret, "PANIC") {
+			rn.res.hadErrC07 = true
+		} else {
+			rn.c.Hit("refused-unload-inside-C07-envelope")
+		}
 	}
 	if strings.HasPrefix(ret, "PANIC") {
 		rn.fail(rn.which, "panic", ret+" at "+line)
@@ -305,10 +373,10 @@ func (rn *runner) do(line string) {
 		}
 		rn.oracleC06(line, links)
 	}
-	if !rn.res.hadErr {
-		rn.oracleC07(line, strings.HasPrefix(line, "close") && !rn.sparse)
+	if !rn.res.hadErrC07 {
+		rn.oracleC07(line, strings.HasPrefix(line, "close") && !rn.sparse && !strings.HasPrefix(ret, "err"))
 	}
-	rn.oracleC08(line, ret, evs, before, after, balBefore)
+	rn.oracleC08(line, ret, evs, before, after, balBefore, firedBefore)
 }
 
 func (rn *runner) oracleC06(line string, links []string) {
@@ -392,7 +460,7 @@ func reqToks(s int, ts []int) []string {
 
 // expectedBlock: the events of one activation (load=true) or deactivation of s, and the error
 // codes if one of its flows fails (then the block ends there).
-func expectedBlock(cur map[int]*live, s int, load bool) (toks []string, abort []int) {
+func expectedBlock(cur map[int]*live, s int, load bool, rf []*refusal, fired map[string]bool) (toks []string, abort []int) {
 	l, ok := cur[s]
 	if !ok {
 		return nil, nil
@@ -401,12 +469,32 @@ func expectedBlock(cur map[int]*live, s int, load bool) (toks []string, abort []
 	if !load {
 		p1, p2, mid = pTerm, pFinal, "U"
 	}
+	u := 0
+	if !load {
+		u = 1
+	}
+	// the refusing hook at (unload, after) that refuses s now, if any
+	refuses := func(after int) (string, int, bool) {
+		for _, r := range rf {
+			key := fmt.Sprintf("X%d%d:%d", u, after, s)
+			if r.unload == !load && r.after == (after == 1) && r.sym == s && !(r.once && fired[key]) {
+				return key, r.code, true
+			}
+		}
+		return "", 0, false
+	}
 	ts, fails := flowTargets(cur, l.def, p1)
 	toks = append(toks, reqToks(s, ts)...)
 	if len(fails) > 0 {
 		return toks, fails
 	}
+	if key, code, yes := refuses(0); yes {
+		return append(toks, key), []int{code}
+	}
 	toks = append(toks, mid+strconv.Itoa(s))
+	if key, code, yes := refuses(1); yes {
+		return append(toks, key), []int{code}
+	}
 	ts, fails = flowTargets(cur, l.def, p2)
 	toks = append(toks, reqToks(s, ts)...)
 	return toks, fails
@@ -420,7 +508,8 @@ func codes(cs []int) string {
 	return "err:" + strings.Join(s, "+")
 }
 
-func (rn *runner) oracleC08(line, ret string, evs []ev, before, after map[int]*live, balBefore map[int]int) {
+func (rn *runner) oracleC08(line, ret string, evs []ev, before, after map[int]*live, balBefore map[int]int, fired map[string]bool) {
+	rf := rn.w.refusals
 	// lifecycle order and error abort, block by block ('C' events are not part of C08)
 	es := evs
 	var bs [][]string
@@ -430,6 +519,7 @@ func (rn *runner) oracleC08(line, ret string, evs []ev, before, after map[int]*l
 		}
 	}
 	aborted := false
+	invisible := false // the failing flow left no event (closed nodes only)
 	abortSubj := 0
 	for bi, b := range bs {
 		if aborted {
@@ -438,20 +528,29 @@ func (rn *runner) oracleC08(line, ret string, evs []ev, before, after map[int]*l
 		}
 		txt := strings.Join(b, " ")
 		var subj int
-		fmt.Sscanf(strings.TrimLeft(b[0], "rLU"), "%d", &subj)
+		if strings.HasPrefix(b[0], "X") {
+			fmt.Sscanf(b[0][strings.Index(b[0], ":")+1:], "%d", &subj)
+		} else {
+			fmt.Sscanf(strings.TrimLeft(b[0], "rLU"), "%d", &subj)
+		}
 		var cands [][2]interface{}
 		switch {
-		case strings.Contains(" "+txt, " L"):
-			t, a := expectedBlock(after, subj, true)
+		case strings.Contains(" "+txt, " L") || strings.Contains(" "+txt, " X0"):
+			t, a := expectedBlock(after, subj, true, rf, fired)
 			cands = append(cands, [2]interface{}{t, a})
-		case strings.Contains(" "+txt, " U"):
-			t, a := expectedBlock(before, subj, false)
+		case strings.Contains(" "+txt, " U") || strings.Contains(" "+txt, " X1"):
+			t, a := expectedBlock(before, subj, false, rf, fired)
 			cands = append(cands, [2]interface{}{t, a})
 		default: // requests only: a first flow that failed
-			t, a := expectedBlock(after, subj, true)
+			t, a := expectedBlock(after, subj, true, rf, fired)
 			cands = append(cands, [2]interface{}{t, a})
-			t, a = expectedBlock(before, subj, false)
+			t, a = expectedBlock(before, subj, false, rf, fired)
 			cands = append(cands, [2]interface{}{t, a})
+		}
+		for _, tk := range b {
+			if strings.HasPrefix(tk, "X") {
+				fired[tk] = true
+			}
 		}
 		matched := false
 		// a requests-only block fits the init flow or the term flow; take the candidate whose
@@ -493,9 +592,28 @@ func (rn *runner) oracleC08(line, ret string, evs []ev, before, after map[int]*l
 		}
 	}
 	if !aborted && strings.HasPrefix(ret, "err") {
+		// a flow that reaches closed nodes only fails without leaving an event (the nodes never see
+		// the request): accept the error when some symbol's first flow is such a flow with this error
+		for _, side := range []struct {
+			cur  map[int]*live
+			load bool
+		}{{after, true}, {before, false}} {
+			for sid := range side.cur {
+				if !closureOK(side.cur, sid) {
+					continue // only an activated symbol runs its flows
+				}
+				if t, a := expectedBlock(side.cur, sid, side.load, rf, fired); len(t) == 0 && len(a) > 0 && codes(a) == ret && !aborted {
+					aborted = true
+					invisible = true
+					abortSubj = sid
+				}
+			}
+		}
+	}
+	if !aborted && strings.HasPrefix(ret, "err") {
 		rn.fail("C08", "error-not-returned", fmt.Sprintf("%q returned %s but no lifecycle flow answered with an error", line, ret))
 	}
-	if aborted && len(evs) > 0 && evs[len(evs)-1].k == 'C' {
+	if aborted && !invisible && len(evs) > 0 && evs[len(evs)-1].k == 'C' {
 		rn.fail("C08", "error-does-not-abort", fmt.Sprintf("%q: a node was closed after the lifecycle flow of symbol %d answered with an error", line, abortSubj))
 	}
 	if strings.HasPrefix(line, "close") && !rn.sparse {
@@ -506,7 +624,7 @@ func (rn *runner) oracleC08(line, ret string, evs []ev, before, after map[int]*l
 				rn.fail("C08", "close-incomplete", fmt.Sprintf("Close ran no failing lifecycle flow but symbols [%s] are still in the table", ints(keys)))
 			}
 		} else {
-			if !has(keys, abortSubj) {
+			if !invisible && !has(keys, abortSubj) {
 				rn.fail("C08", "error-does-not-abort", fmt.Sprintf("Close: symbol %d was removed although its lifecycle flow answered with an error", abortSubj))
 			}
 			for _, e := range evs {
@@ -604,6 +722,16 @@ func runLines(c *lib.Ctx, which string, lines []string) *caseResult {
 			rn.res.outs = append(rn.res.outs, "ok")
 			continue
 		}
+		if len(f) == 7 && f[0] == "mode" && f[1] == "refuse" {
+			n := make([]int, 5)
+			for i := range n {
+				n[i], _ = strconv.Atoi(f[2+i])
+			}
+			rn.w.refusals = append(rn.w.refusals, &refusal{unload: n[0] == 1, after: n[1] == 1, sym: n[2], once: n[3] == 1, code: n[4]})
+			rn.res.lines = append(rn.res.lines, l)
+			rn.res.outs = append(rn.res.outs, "ok")
+			continue
+		}
 		if len(f) == 2 && f[0] == "mode" && f[1] == "sparse" {
 			rn.sparse = true
 			rn.res.lines = append(rn.res.lines, l)
@@ -670,7 +798,7 @@ func genCase(c *lib.Ctx, r *lib.RNG, which string) []string {
 func genCaseOps(c *lib.Ctx, r *lib.RNG, which string) []string {
 	var u *universe
 	flavour := map[string]int{"C06": 0, "C07": 1, "C08": 2}[which]
-	chainP := map[string]int{"C06": 3, "C07": 1, "C08": 5}[which]
+	chainP := map[string]int{"C06": 3, "C07": 3, "C08": 5}[which]
 	if r.Chance(chainP, 10) {
 		u = genChain(r, c)
 		c.Hit("universe-chain")
@@ -690,6 +818,7 @@ func genCaseOps(c *lib.Ctx, r *lib.RNG, which string) []string {
 	if u.reuse {
 		lines = append(lines, "mode reuse")
 	}
+	lines = append(lines, u.refusals...)
 	// the table is built from 2–3 TableOptions with 1–2 load and unload hooks each
 	nHooks := 2 // hook ids: 1,2 for the default single option
 	multi := r.Chance(map[string]int{"C06": 2, "C07": 3, "C08": 5}[which], 10)
@@ -709,7 +838,7 @@ func genCaseOps(c *lib.Ctx, r *lib.RNG, which string) []string {
 	cur := map[int]*live{}
 	n := r.Range(4, c.Scale(14, 14))
 	for len(lines)-1 < n {
-		if multi && r.Chance(1, 8) {
+		if multi && len(u.refusals) == 0 && r.Chance(1, 8) {
 			// Add / Remove a hook on the table that already holds hooks. Load hooks have the odd ids,
 			// unload hooks the even ones (creation order); ids above nHooks are fresh objects. The
 			// first hook of each kind is never removed (the trace needs one notification per kind).
@@ -748,6 +877,9 @@ func genCaseOps(c *lib.Ctx, r *lib.RNG, which string) []string {
 			// names are fixed per id in chain universes (the only ones with failures).
 			cur[d.ID] = &live{def: d}
 			lines = append(lines, d.line())
+			if u.hasFail && r.Chance(1, 4) {
+				lines = append(lines, d.line()) // retry of a (possibly refused) operation
+			}
 		case 1:
 			id := r.Range(1, u.nIds+1)
 			if _, ok := cur[id]; ok {
@@ -759,6 +891,9 @@ func genCaseOps(c *lib.Ctx, r *lib.RNG, which string) []string {
 				delete(cur, id)
 			}
 			lines = append(lines, fmt.Sprintf("free %d", id))
+			if u.hasFail && r.Chance(1, 4) {
+				lines = append(lines, fmt.Sprintf("free %d", id))
+			}
 		default:
 			if u.chain && u.hasFail {
 				// with a failing flow the point at which Close aborts depends on map order: the
@@ -865,7 +1000,9 @@ func RunProp(c *lib.Ctx, which string) {
 		"names are unique per namespace among live symbols (generator enforces it; it is what the runtime's unique index gives the table); each port reference has exactly one of id / name; ids are non-nil",
 		"port names are canonical (no use of the alias out == out[0] of OneToManyNode); no spec names the error port",
 		"lifecycle targets answer every packet (harness nodes always answer; a target that never answers blocks exec in Go and is outside the model)",
-		"types.Marshal(spec) does not fail; load/unload hooks and Node.Close return nil (only lifecycle flows fail)",
+		"types.Marshal(spec) does not fail; Node.Close returns nil. What fails: lifecycle flows (a responder answers with an error, with packet.ErrDroppedPacket, or is a node that was closed before its *Symbol was inserted again – chain universes that re-use objects), and refusing hooks (`mode refuse`): one load hook registered before and one after the observing hooks, one unload hook registered after (runs first) and one before them, each refusing chosen symbols once or always; refused operations are retried",
+		"refusing hooks sit before ALL or after ALL observing hooks (not between two observers); cases with refusing hooks have no Add/RemoveHook operations; failures (flows, hooks) only in chain universes, where the order of a pass is total – in general universes which symbol fails first would depend on Go map order",
+		"C07 (loaded-without-unload = closure present, alternation, unload before close) is judged on histories without failures, plus operations refused by an unload hook that runs before every observing hook for the FIRST symbol of its unload pass (nothing was notified: the table must be as before). After any other failure (a flow, a load hook, an unload hook that runs after the observers, a refusal after other symbols of the pass were already unloaded) the unchanged code leaves a present symbol with a complete closure un-notified (or notified twice on the retry); the property's quantifier – sequences of Insert/Free/Close over symbol universes – does not cover failing hooks or flows, C08 states what must happen then (abort, error returned), so the generator's C07 verdict stays inside that envelope",
 		"Go map iteration order: the model is run with one fixed order; only order-insensitive observations are compared (sorted sets; event blocks sorted, or in sequence for chain universes where the order is total)",
 		"Table methods are atomic (they run under Table.mu; C20)",
 	}
